@@ -11,10 +11,10 @@ import vlib
 
 def run(tier, seed):
     out = dict(violations=[], coverage={}, evaluations=0, samples=[])
-    reps = 12 if tier == "thorough" else 4
+    reps = 8 if tier == "thorough" else 4
     runs, cdir = vlib.correspondence(tier, seed)
     env = dict(vlib.GOENV, HARNESS_EVENTS="1")
-    files = [r["ops"] for r in runs][: (16 if tier == "thorough" else 6)]
+    files = [r["ops"] for r in runs][: (8 if tier == "thorough" else 6)]
     settle_multi = 0
     for f in files:
         hashes = {}
